@@ -536,6 +536,16 @@ def check_axis(fr, n, nform="py", frform="py"):
         k = int(bad[0])
         return [("tps:axis", "get_tps_time_axis(%r,%d)%s[%d]=%r, expected k*frame_rate/n_frames=%r"
                  % (fr, n, tag, k, float(ax[k]), float(want[k])))]
+    # history: the caller rescales / edits the axis it was given (rad/s, a log axis) and asks for the same axis again later
+    got = _entry("get_tps_time_axis")(ff, nn)
+    if isinstance(got, numpy.ndarray) and got.size and got.flags.writeable:
+        got *= 2 * numpy.pi
+        got[0] = -1.0
+        again = numpy.asarray(_entry("get_tps_time_axis")(ff, nn), dtype=float)
+        if again.shape != want.shape or not (numpy.abs(again - want) <= 1e-12 * numpy.abs(want)).all():
+            return [("tps:axis:history", "get_tps_time_axis(%r,%d)%s called again after the caller rescaled the array returned by the first call: "
+                     "[0]=%r, [-1]=%r, expected %r, %r" % (fr, n, tag, float(again[0]) if again.size else None,
+                                                             float(again[-1]) if again.size else None, float(want[0]), float(want[-1])))]
     return []
 
 
